@@ -233,7 +233,7 @@ def run_images(ctx, nprog, per_program):
 def run(ctx):
     prop_files = vlib.listed_props(PROP_FILES)
     vlib.build(ctx, prop_files, variants=("plain",))
-    nprog, per = (8, 320) if ctx.tier == "quick" else (40, 2500)
+    nprog, per = (8, 320) if ctx.tier == "quick" else (20, 1200)
     cases, parsed, spec_scripts, model = run_images(ctx, nprog, per)
     nviol = 0
     dist = {}
